@@ -198,9 +198,9 @@ theorem int_ok (n : Nat) (hn : n ≤ 4294967296) : ValOK (.int (n : Int)) := by
 
 /-- every entry of the dictionary `create_xref_steam` builds comes from the trailer or is one of
 the five values the writer sets -/
-theorem streamTrailer_values_ok (d : SDoc) (hmax : d.maxId + 2 ≤ 4294967295) (hg : GensOk d)
-    (hlen : (xrefStreamContent (streamSecs (xmapStream [] d) (d.maxId + 1))).length ≤ 4294967296)
-    (htr : ∀ p ∈ d.trailer, ValOK p.2) : ∀ p ∈ streamTrailer [] d, ValOK p.2 := by
+theorem streamTrailer_values_ok (pre : Bytes) (d : SDoc) (hmax : d.maxId + 2 ≤ 4294967295) (hg : GensOk d)
+    (hlen : (xrefStreamContent (streamSecs (xmapStream pre d) (d.maxId + 1))).length ≤ 4294967296)
+    (htr : ∀ p ∈ d.trailer, ValOK p.2) : ∀ p ∈ streamTrailer pre d, ValOK p.2 := by
   intro p hp
   unfold streamTrailer at hp
   simp only at hp
@@ -228,7 +228,7 @@ theorem streamTrailer_values_ok (d : SDoc) (hmax : d.maxId + 2 ≤ 4294967295) (
       intro o ho
       simp only [List.mem_flatten, List.mem_map] at ho
       obtain ⟨l, ⟨sec, hsec, rfl⟩, ho⟩ := ho
-      obtain ⟨hb, _⟩ := streamSecs_ok (xmapStream [] d) (d.maxId + 1) (xmapStream_ok [] d hg) (by omega) sec hsec
+      obtain ⟨hb, _⟩ := streamSecs_ok (xmapStream pre d) (d.maxId + 1) (xmapStream_ok pre d hg) (by omega) sec hsec
       simp only [List.mem_cons, List.mem_nil_iff, or_false] at ho
       rcases ho with h | h <;> subst h
       · exact ⟨sec.1, rfl, by omega⟩
@@ -267,7 +267,7 @@ theorem file_rt_stream (order : Option (List Nat)) (d : SDoc) (out : Bytes) (d' 
     simp only [height] at t2
     have := (heightD_le_iff d.trailer (MAX_NESTING - 1)).mp (by omega) p hp
     exact this
-  have hsv := streamTrailer_values_ok d hmax hwf.gens hclen hvals
+  have hsv := streamTrailer_values_ok [] d hmax hwf.gens hclen hvals
   have hD : ∀ rest, DictReadsBack d'.trailer rest := by
     intro rest
     unfold DictReadsBack
